@@ -552,6 +552,14 @@ def gen_pair_general(rng):
     mode = rng.choice(["contact", "contact", "gap", "gap", "overlap", "deep", "random", "far", "veryfar"])
     info = {"mode": mode}
     n = _unit(np.array([rng.gauss(0, 1) for _ in range(3)]))
+    if "R" in sA and rng.random() < 0.3:
+        # approach direction perpendicular to one local axis of A: for a box / cylinder / mesh the closest feature of
+        # A is then an EDGE (or a rim generator), not a vertex — the final simplex is a nearly collinear triple
+        RA = np.array(sA["R"], dtype=float).reshape(3, 3)
+        i, j = rng.sample([0, 1, 2], 2)
+        th = rng.uniform(0.1, 1.47)
+        n = _unit(RA[:, i] * math.cos(th) * rng.choice([-1, 1]) + RA[:, j] * math.sin(th) * rng.choice([-1, 1]))
+        info["approach"] = "edge"
     if mode == "contact":
         sB = contact_scene(rng, sA, sB, n, 0.0)
         info["gt"] = 0.0
@@ -1162,6 +1170,11 @@ def compare_runs(ctx, runs, tag):
         if not same_path:
             ctx.extra["run_path_ties"] = ctx.extra.get("run_path_ties", 0) + 1
         okd = abs(dm - d) <= tol
+        if not okd and min(dm, d) == 0.0 and max(dm, d) <= 1e-7 * L:
+            # exit-threshold tie on the last step: one side left through an Intersection exit (d := 0), the other one
+            # through NoIntersection with |v| a few 1e-8 L — both answers are far inside the property's 1e-5 L
+            ctx.extra["run_exit_ties"] = ctx.extra.get("run_exit_ties", 0) + 1
+            continue
         oka = a is not None and am is not None and np.all(np.abs(am - a) <= max(tol, 1e-7 * L)) and \
             np.all(np.abs(bm - b) <= max(tol, 1e-7 * L))
         if not okd:
